@@ -141,6 +141,30 @@ def const_of(m, e):
     return e.value if isinstance(e, ast.Constant) else None
 
 
+JSON_OUTSIDE_STRINGS = set(" \t\n\r{}[]:,\"0123456789+-.eEtrufalsnN IynTyi")  # structure, numbers, true/false/null, NaN/Infinity
+
+
+def json_text_equivalent(a: str, b: str):
+    """Does rewriting the text ``a`` to ``b`` inside a JSON document preserve the decoded value?  True/False when ``a``
+    can only occur within a string literal; None when it might also match structural text.  The two constants
+    are decoded as JSON string content (constant folding with the stdlib decoder as the JSON semantics)."""
+    import json as _json
+
+    if not a or all(ch in JSON_OUTSIDE_STRINGS for ch in a):
+        return None
+    try:
+        da = _json.loads('"' + a + '"')
+    except ValueError:
+        da = None  # `a` ends in the middle of an escape: it still only matches inside strings
+    try:
+        db = _json.loads('"' + b + '"')
+    except ValueError:
+        return False  # the replacement is not valid JSON string content
+    if da is None:
+        return None
+    return da == db
+
+
 def returns(fi):
     return [n for n in fi.cfg.stmt_nodes(lambda n: n.kind == "stmt" and isinstance(n.ast, ast.Return))]
 
@@ -201,11 +225,19 @@ def rule_json(ck):
         if not good and isinstance(r.ast.value, ast.Name) and base_ok and absent_at(f.cfg, r, ("</", "<", "/"), {r.ast.value.id}):
             good = True  # fast path: nothing to replace
         ck.ob(rid, f, r.ast, good, "the result passes through .replace('</', R) with R free of '</' and JSON-equivalent ('<\\/'), or is returned where '</' is known to be absent")
-        # other replacements must not undo it
+        # every textual replacement applied to the JSON document must leave its decoded value unchanged: the
+        # replaced text can only occur inside a JSON string (it contains a character that JSON does not use outside
+        # strings) and the replacement must be valid JSON string content that decodes to the same characters
         for rp in reps:
-            a, b = rp.args
-            if not (isinstance(a, ast.Constant) and a.value == "</"):
-                ck.ob(rid, f, rp, isinstance(b, ast.Constant) and isinstance(b.value, str) and "</" not in b.value and "/" not in b.value, "no other replacement can re-introduce '</'")
+            av, bv = const_of(m, rp.args[0]), const_of(m, rp.args[1])
+            if not (isinstance(av, str) and isinstance(bv, str)):
+                raise AnalysisError("json_encode: replacement arguments are not string constants: %s" % q.unparse(rp))
+            verdict = json_text_equivalent(av, bv)
+            if verdict is None:
+                raise AnalysisError("json_encode: cannot tell whether %r occurs only inside JSON strings" % av)
+            ck.ob(rid, f, rp, verdict, "replacing %r by %r keeps the JSON document decoding to the same value (valid escape, same characters)" % (av, bv), construct="json replace %r -> %r" % (av, bv))
+            if av != "</":
+                ck.ob(rid, f, rp, "</" not in bv and not (bv.endswith("<") or bv.startswith("/")), "no other replacement can re-introduce '</'", construct="json replace %r -> %r reintroduces </" % (av, bv))
     g = ck.func(E, "json_decode")
     for r in returns(g):
         c = r.ast.value
@@ -566,6 +598,8 @@ MUTANTS = [
     ("xhtml_unescape skips the decoding of bytes", _in("xhtml_unescape", replace_expr(lambda n: isinstance(n, ast.Call) and _u(n.func) == "to_unicode", lambda n: n.args[0])), "C21.html"),
     ("json_encode without the '</' replacement", _in("json_encode", replace_expr(lambda n: isinstance(n, ast.Call) and isinstance(n.func, ast.Attribute) and n.func.attr == "replace", lambda n: n.func.value)), "C21.json"),
     ("json_encode fast path tests for '</script' only", _in("json_encode", lambda fn: (fn.body.__setitem__(slice(len(fn.body) - 1, len(fn.body)), [parse_stmt("s = json.dumps(value)"), parse_stmt("if '</script' not in s:\n    return s"), parse_stmt("return s.replace('</', '<\\\\/')")]) or True)), "C21.json"),
+    ("seeded C21-adv3: also 'escapes' <!-- with the invalid JSON escape \\!", _in("json_encode", replace_stmt(lambda st: isinstance(st, ast.Return), lambda st: [parse_stmt("return json.dumps(value).replace('</', '<\\\\/').replace('<!--', '<\\\\!--')")])), "C21.json"),
+    ("json_encode also rewrites '<!--' to a different text", _in("json_encode", replace_stmt(lambda st: isinstance(st, ast.Return), lambda st: [parse_stmt("return json.dumps(value).replace('</', '<\\\\/').replace('<!--', '< !--')")])), "C21.json"),
     ("json_encode only protects '</script'", _in("json_encode", replace_expr(lambda n: q.is_const(n, "</"), lambda n: ast.Constant(value="</script"))), "C21.json"),
     ("json_encode replaces '</' by '< /' (not JSON-equivalent)", _in("json_encode", replace_expr(lambda n: q.is_const(n, "<\\/"), lambda n: ast.Constant(value="< /"))), "C21.json"),
     ("url_escape modes swapped", _in("url_escape", replace_expr(lambda n: isinstance(n, ast.IfExp), lambda n: ast.IfExp(test=n.test, body=n.orelse, orelse=n.body))), "C21.url"),
